@@ -641,8 +641,7 @@ func init() {
 				states += res.States
 				report = append(report, res.Configs...)
 				if res.Capped {
-					c.Deadline = time.Now()
-					c.Expired()
+					c.MarkCapped()
 				}
 			}
 			os.WriteFile(filepath.Join(core.BuildDir(), "C19-race-stderr.txt"), []byte(stderrAll), 0o644)
